@@ -11,13 +11,27 @@ checkpoint store (`Model/Checkpoint.lean`, C12). Helper lemmas: `Proofs/Checkpoi
 
 Everything is quantified over: every partition type `P` and every chain (all seven node kinds, joins included, any
 closures), every policy (`AfterEveryBarrier`, `EveryNNodes n` incl. `0`, `TimeInterval s`, `Hybrid b s`), every
-retention (`None`, `Some m` incl. `0`), `auto_recover` on or off, every initial directory (any names, any bytes),
-every hash function, every clock script (not even monotone), every partition count.
+retention (`None`, `Some m` incl. `0`), `auto_recover` on or off, every initial directory (any names, any bytes, any
+of them sub-directories), every hash function, every clock script (not even monotone), every partition count.
 
-The ONE thing taken from elsewhere is that `load_checkpoint` returns on every input (`SafeDecoder`); for the
-running code that is C12's `load_never_crashes` (its decode limit is re-read from the code on every run). The
-theorem `recovery_only_hurts_through_load` shows this is exactly what is needed: without it the only other outcome
-is the process dying inside `load_checkpoint` — witnessed for the pinned commit's unlimited decoder.
+TWO things are hypotheses, and `ckpt_outcome_cases` shows they are exactly what is needed (every other outcome is one
+of three named exits, each witnessed):
+
+* `SafeDecoder`: `load_checkpoint` returns on every input; for the running code that is C12's `load_never_crashes`
+  (its decode limit is re-read from the code on every run). Otherwise the process can die inside `load_checkpoint`
+  — witnessed for the pinned commit's unlimited decoder (`legacy_decoder_recovery_dies`).
+* `DirUsable`: the configured checkpoint directory can be created (`CheckpointManager::new(config)?`) and, when
+  `auto_recover` is on, listed (`find_latest_checkpoint(..)?`). These two `?` exist only in the checkpointing
+  engines: with a directory path that is a regular file the checkpointing run returns `Err("Failed to create
+  checkpoint directory")` where the plain run returns the rows — `unusable_directory_not_transparent` (reproduced on
+  the real code by the harness, jobs `dir=file`). Read as a PRECONDITION of the property (a run that was asked to
+  checkpoint into an impossible place refuses to start, before any node runs and without touching anything), not
+  as a defect; see the MANIFEST note.
+
+Sub-directories inside the checkpoint directory (`Env.isDir`) — in particular one with a well-formed checkpoint name —
+are part of "every initial directory": they never change the result; they are NOT removed by the final clear
+(`remove_file` fails on them, `.ok()`), so "clean after success" is about own-named regular FILES
+(`ckpt_clean_after_success`, `own_named_directory_survives`).
 -/
 namespace IB.CheckpointRun
 open IB IB.Checkpoint
@@ -35,6 +49,10 @@ theorem current_decoder_safe (env : Env) (mem : Nat) (hmem : IB.Generated.ckptDe
   rw [hdec]
   exact load_never_crashes env.H mem hmem bytes
 
+/-- a directory that can be created and listed is usable under every configuration -/
+theorem dirUsable_of (env : Env) (cfg : Config) (hc : env.dirCreatable = true) (hl : env.dirListable = true) :
+    DirUsable env cfg := ⟨hc, fun _ => hl⟩
+
 /-! ## 1. Transparency -/
 
 /-- **The second copy of the node match is the first**: the checkpointing engine's per-node code computes, for
@@ -43,13 +61,13 @@ theorem current_decoder_safe (env : Env) (mem : Nat) (hmem : IB.Generated.ckptDe
 theorem ckpt_engine_mirrors_plain (cur : Option P) (n : Node P) : stepSeqCk cur n = stepSeq cur n :=
   stepSeqCk_eq_stepSeq cur n
 
-/-- **Transparency, sequential**: with checkpointing enabled the run returns exactly what `exec_seq` returns —
-    every chain, policy, retention, `auto_recover`, initial directory, hash, clock. -/
-theorem ckpt_transparent (env : Env) (hsafe : SafeDecoder env) (cfg : Config) (fs : FS) (chain : List (Node P)) :
+/-- once the set-up and the recovery block are passed, the sequential checkpointing engine returns what `exec_seq`
+    returns -/
+theorem seq_after_recovery (env : Env) (cfg : Config) (fs : FS) (chain : List (Node P)) (lg : RecLog)
+    (hc : env.dirCreatable = true) (hlg : recover env cfg (seqPid env chain.length) fs = .ok lg) :
     (execSeqCkpt env cfg fs chain).outcome = .finished (execSeq chain) := by
-  obtain ⟨lg, hlg⟩ := recover_ok_of_noCrash env cfg (seqPid env chain.length) fs hsafe
   unfold execSeqCkpt
-  simp only [hlg]
+  simp only [hc, hlg, Bool.not_true, Bool.false_eq_true, if_false]
   rw [runNodes_result, execSeq_eq_seqFold]
   cases h : seqFold chain none with
   | error e => rfl
@@ -58,35 +76,53 @@ theorem ckpt_transparent (env : Env) (hsafe : SafeDecoder env) (cfg : Config) (f
     | none => rfl
     | some b => rfl
 
-/-- **Transparency, parallel**: likewise `exec_par`, for every partition count. -/
-theorem ckpt_transparent_par (concat : List P → P) (env : Env) (hsafe : SafeDecoder env) (cfg : Config) (fs : FS)
-    (chain : List (Node P)) (n : Nat) :
+theorem par_after_recovery (concat : List P → P) (env : Env) (cfg : Config) (fs : FS) (chain : List (Node P))
+    (n : Nat) (lg : RecLog) (hc : env.dirCreatable = true)
+    (hlg : recover env cfg (parPid env chain.length n) fs = .ok lg) :
     (execParCkpt concat env cfg fs chain n).outcome = .finished (execPar concat chain n) := by
-  obtain ⟨lg, hlg⟩ := recover_ok_of_noCrash env cfg (parPid env chain.length n) fs hsafe
   unfold execParCkpt
-  simp only [hlg]
+  simp only [hc, hlg, Bool.not_true, Bool.false_eq_true, if_false]
   cases h : execPar concat chain n with
   | ok v => rfl
   | error e =>
     simp only []
     split <;> rfl
 
+/-- **Transparency, sequential**: with checkpointing enabled (into a usable directory) the run returns exactly what
+    `exec_seq` returns — every chain, policy, retention, `auto_recover`, initial directory content, hash, clock. -/
+theorem ckpt_transparent (env : Env) (hsafe : SafeDecoder env) (cfg : Config) (hdir : DirUsable env cfg) (fs : FS)
+    (chain : List (Node P)) :
+    (execSeqCkpt env cfg fs chain).outcome = .finished (execSeq chain) := by
+  obtain ⟨lg, hlg⟩ := recover_ok_of_noCrash env cfg (seqPid env chain.length) fs hdir.2 hsafe
+  exact seq_after_recovery env cfg fs chain lg hdir.1 hlg
+
+/-- **Transparency, parallel**: likewise `exec_par`, for every partition count. -/
+theorem ckpt_transparent_par (concat : List P → P) (env : Env) (hsafe : SafeDecoder env) (cfg : Config)
+    (hdir : DirUsable env cfg) (fs : FS) (chain : List (Node P)) (n : Nat) :
+    (execParCkpt concat env cfg fs chain n).outcome = .finished (execPar concat chain n) := by
+  obtain ⟨lg, hlg⟩ := recover_ok_of_noCrash env cfg (parPid env chain.length n) fs hdir.2 hsafe
+  exact par_after_recovery concat env cfg fs chain n lg hdir.1 hlg
+
 /-- **Transparency for the code as configured today** (both modes): whatever the hash, clock and `f64` progress
-    function are, with the decode limit the running code has. -/
+    function are and whichever entries of the (creatable, listable) directory are sub-directories, with the decode
+    limit the running code has. -/
 theorem ckpt_transparent_current (H : Bytes → Bytes) (clock : Nat → Nat) (progress : Nat → Nat → UInt8) (mem : Nat)
+    (isDir : Name → Bool)
     (hmem : IB.Generated.ckptDecodeLimit ≤ mem) (concat : List P → P) (cfg : Config) (fs : FS)
     (chain : List (Node P)) (n : Nat) :
-    let env : Env := { H := H, dec := currentCfg mem, clock := clock, progress := progress }
+    let env : Env := { H := H, dec := currentCfg mem, clock := clock, progress := progress, isDir := isDir }
     (execSeqCkpt env cfg fs chain).outcome = .finished (execSeq chain) ∧
     (execParCkpt concat env cfg fs chain n).outcome = .finished (execPar concat chain n) := by
   intro env
   have hs : SafeDecoder env := current_decoder_safe env mem hmem rfl
-  exact ⟨ckpt_transparent env hs cfg fs chain, ckpt_transparent_par concat env hs cfg fs chain n⟩
+  have hd : DirUsable env cfg := dirUsable_of env cfg rfl rfl
+  exact ⟨ckpt_transparent env hs cfg hd fs chain, ckpt_transparent_par concat env hs cfg hd fs chain n⟩
 
 /-- **`Runner::run_collect`**: for every runner (either mode, any partition count) the outcome with ANY checkpoint
-    configuration — enabled or not, any policy, retention, `auto_recover` — on ANY directory equals the outcome of the
-    same runner without a checkpoint configuration. -/
-theorem run_collect_transparent (concat : List P → P) (env : Env) (hsafe : SafeDecoder env) (mode : ExecMode)
+    configuration — enabled or not, any policy, retention, `auto_recover` — on ANY content of a usable directory equals
+    the outcome of the same runner without a checkpoint configuration. -/
+theorem run_collect_transparent (concat : List P → P) (env : Env) (hsafe : SafeDecoder env)
+    (hc : env.dirCreatable = true) (hl : env.dirListable = true) (mode : ExecMode)
     (ck : Option (Bool × Config)) (fs fs' : FS) (chain : List (Node P)) :
     (runCollect concat env { mode := mode, checkpoint := ck } fs chain).outcome =
       (runCollect concat env { mode := mode, checkpoint := none } fs' chain).outcome := by
@@ -99,38 +135,159 @@ theorem run_collect_transparent (concat : List P → P) (env : Env) (hsafe : Saf
     | false => cases mode <;> rfl
     | true =>
       cases mode with
-      | sequential => exact ckpt_transparent env hsafe cfg fs chain
-      | parallel n => exact ckpt_transparent_par concat env hsafe cfg fs chain n
+      | sequential => exact ckpt_transparent env hsafe cfg (dirUsable_of env cfg hc hl) fs chain
+      | parallel n => exact ckpt_transparent_par concat env hsafe cfg (dirUsable_of env cfg hc hl) fs chain n
 
-/-- without an enabled checkpoint configuration the directory is not touched -/
+/-- without an enabled checkpoint configuration the directory is not touched (nor looked at: no hypothesis on it) -/
 theorem run_collect_disabled_touches_nothing (concat : List P → P) (env : Env) (mode : ExecMode) (cfg : Config)
     (fs : FS) (chain : List (Node P)) :
     (runCollect concat env { mode := mode, checkpoint := none } fs chain).fs = fs ∧
-    (runCollect concat env { mode := mode, checkpoint := some (false, cfg) } fs chain).fs = fs := by
+    (runCollect concat env { mode := mode, checkpoint := some (false, cfg) } fs chain).fs = fs ∧
+    (runCollect concat env { mode := mode, checkpoint := some (false, cfg) } fs chain).outcome =
+      (runCollect concat env { mode := mode, checkpoint := none } fs chain).outcome := by
   unfold runCollect
-  cases mode <;> exact ⟨rfl, rfl⟩
+  cases mode <;> exact ⟨rfl, rfl, rfl⟩
 
 /-- **Transparency for the pipelines the builders produce** (the programs of the correspondence check: any source
     rows, any sequence of builder calls — element-wise steps, barriers, global combines, joins): `run_collect` with
     checkpointing returns what the plain sequential / parallel run of the planned chain returns
     (`runSeq` / `runPar` of `Model/Program.lean`, the model C01–C07 are about). -/
-theorem ckpt_transparent_program (env : Env) (hsafe : SafeDecoder env) (cfg : Config) (fs : FS)
-    (src : List Val) (steps : List Step) (n : Nat) :
+theorem ckpt_transparent_program (env : Env) (hsafe : SafeDecoder env) (cfg : Config) (hdir : DirUsable env cfg)
+    (fs : FS) (src : List Val) (steps : List Step) (n : Nat) :
     (execSeqCkpt env cfg fs (optimise (litChain src steps))).outcome = .finished (runSeq src steps) ∧
     (execParCkpt List.flatten env cfg fs (optimise (litChain src steps)) n).outcome = .finished (runPar src steps n) :=
-  ⟨ckpt_transparent env hsafe cfg fs _, ckpt_transparent_par List.flatten env hsafe cfg fs _ n⟩
+  ⟨ckpt_transparent env hsafe cfg hdir fs _, ckpt_transparent_par List.flatten env hsafe cfg hdir fs _ n⟩
+
+/-! ### the hypotheses are exactly what is needed -/
+
+/-- **Every way a sequential checkpointing run can end** — for ANY decoder and ANY state of the directory path:
+    either it returns exactly the plain result, or it is one of the three exits the checkpointing engines add:
+    (a) the directory cannot be created ⇒ `Err` from `CheckpointManager::new`;
+    (b) `auto_recover` is on and the directory cannot be listed ⇒ `Err` from `find_latest_checkpoint`;
+    (c) `auto_recover` is on and the process died inside `load_checkpoint` on the content of the newest well-formed
+        checkpoint file of this id. -/
+theorem ckpt_outcome_cases (env : Env) (cfg : Config) (fs : FS) (chain : List (Node P)) :
+    (execSeqCkpt env cfg fs chain).outcome = .finished (execSeq chain) ∨
+    (env.dirCreatable = false ∧ (execSeqCkpt env cfg fs chain).outcome = .setupFailed .createDir) ∨
+    (env.dirCreatable = true ∧ cfg.autoRecover = true ∧ env.dirListable = false ∧
+      (execSeqCkpt env cfg fs chain).outcome = .setupFailed .readDir) ∨
+    ∃ name bytes e, cfg.autoRecover = true ∧ latest true (seqPid env chain.length) fs = some name ∧
+      env.isDir name = false ∧ read fs name = some bytes ∧ load env.H env.dec bytes = .error e ∧ kills e = true ∧
+      (execSeqCkpt env cfg fs chain).outcome = .died e := by
+  cases hc : env.dirCreatable with
+  | false =>
+    right; left
+    refine ⟨rfl, ?_⟩
+    unfold execSeqCkpt
+    simp [hc]
+  | true =>
+    rcases recover_cases env cfg (seqPid env chain.length) fs with
+      ⟨lg, hlg⟩ | ⟨h1, h2, h3⟩ | ⟨name, bytes, e, h1, _, h2, hd, h3, h4, h5, h6⟩
+    · left; exact seq_after_recovery env cfg fs chain lg hc hlg
+    · right; right; left
+      refine ⟨rfl, h1, h2, ?_⟩
+      unfold execSeqCkpt
+      simp only [hc, h3, Bool.not_true, Bool.false_eq_true, if_false]
+    · right; right; right
+      refine ⟨name, bytes, e, h1, h2, hd, h3, h4, h5, ?_⟩
+      unfold execSeqCkpt
+      simp only [hc, h6, Bool.not_true, Bool.false_eq_true, if_false]
+
+theorem ckpt_outcome_cases_par (concat : List P → P) (env : Env) (cfg : Config) (fs : FS) (chain : List (Node P))
+    (n : Nat) :
+    (execParCkpt concat env cfg fs chain n).outcome = .finished (execPar concat chain n) ∨
+    (env.dirCreatable = false ∧ (execParCkpt concat env cfg fs chain n).outcome = .setupFailed .createDir) ∨
+    (env.dirCreatable = true ∧ cfg.autoRecover = true ∧ env.dirListable = false ∧
+      (execParCkpt concat env cfg fs chain n).outcome = .setupFailed .readDir) ∨
+    ∃ name bytes e, cfg.autoRecover = true ∧ latest true (parPid env chain.length n) fs = some name ∧
+      env.isDir name = false ∧ read fs name = some bytes ∧ load env.H env.dec bytes = .error e ∧ kills e = true ∧
+      (execParCkpt concat env cfg fs chain n).outcome = .died e := by
+  cases hc : env.dirCreatable with
+  | false =>
+    right; left
+    refine ⟨rfl, ?_⟩
+    unfold execParCkpt
+    simp [hc]
+  | true =>
+    rcases recover_cases env cfg (parPid env chain.length n) fs with
+      ⟨lg, hlg⟩ | ⟨h1, h2, h3⟩ | ⟨name, bytes, e, h1, _, h2, hd, h3, h4, h5, h6⟩
+    · left; exact par_after_recovery concat env cfg fs chain n lg hc hlg
+    · right; right; left
+      refine ⟨rfl, h1, h2, ?_⟩
+      unfold execParCkpt
+      simp only [hc, h3, Bool.not_true, Bool.false_eq_true, if_false]
+    · right; right; right
+      refine ⟨name, bytes, e, h1, h2, hd, h3, h4, h5, ?_⟩
+      unfold execParCkpt
+      simp only [hc, h6, Bool.not_true, Bool.false_eq_true, if_false]
+
+/-- **The only way leftover files can hurt** (usable directory, ANY decoder): either the run returns exactly the
+    plain result, or `auto_recover` is on and the process died inside `load_checkpoint` on the content of the newest
+    well-formed checkpoint file of this id. -/
+theorem recovery_only_hurts_through_load (env : Env) (cfg : Config) (hdir : DirUsable env cfg) (fs : FS)
+    (chain : List (Node P)) :
+    (execSeqCkpt env cfg fs chain).outcome = .finished (execSeq chain) ∨
+    ∃ name bytes e, cfg.autoRecover = true ∧ latest true (seqPid env chain.length) fs = some name ∧
+      read fs name = some bytes ∧ load env.H env.dec bytes = .error e ∧ kills e = true ∧
+      (execSeqCkpt env cfg fs chain).outcome = .died e := by
+  rcases ckpt_outcome_cases env cfg fs chain with h | ⟨h, _⟩ | ⟨_, h1, h2, _⟩ | ⟨name, bytes, e, h1, h2, _, h3, h4, h5, h6⟩
+  · left; exact h
+  · rw [hdir.1] at h; cases h
+  · rw [hdir.2 h1] at h2; cases h2
+  · right; exact ⟨name, bytes, e, h1, h2, h3, h4, h5, h6⟩
+
+/-- **NEGATION without `DirUsable` (1)**: when the configured directory cannot be created (e.g. the path is a regular
+    file), BOTH checkpointing engines return the `Err` of `CheckpointManager::new` — for every chain, in particular
+    for those whose plain run returns rows — before any node runs and without touching the directory. -/
+theorem unusable_directory_not_transparent (concat : List P → P) (env : Env) (hc : env.dirCreatable = false)
+    (cfg : Config) (fs : FS) (chain : List (Node P)) (n : Nat) :
+    (execSeqCkpt env cfg fs chain).outcome = .setupFailed .createDir ∧
+    (execSeqCkpt env cfg fs chain).outcome ≠ .finished (execSeq chain) ∧
+    (execSeqCkpt env cfg fs chain).fs = fs ∧
+    (execParCkpt concat env cfg fs chain n).outcome = .setupFailed .createDir ∧
+    (execParCkpt concat env cfg fs chain n).outcome ≠ .finished (execPar concat chain n) ∧
+    (execParCkpt concat env cfg fs chain n).fs = fs := by
+  have h1 : execSeqCkpt env cfg fs chain = { outcome := .setupFailed .createDir, fs := fs, log := none } := by
+    unfold execSeqCkpt; simp [hc]
+  have h2 : execParCkpt concat env cfg fs chain n = { outcome := .setupFailed .createDir, fs := fs, log := none } := by
+    unfold execParCkpt; simp [hc]
+  rw [h1, h2]
+  refine ⟨rfl, ?_, rfl, rfl, ?_, rfl⟩ <;> (intro h; cases h)
+
+/-- **NEGATION without `DirUsable` (2)**: the directory exists but cannot be listed (e.g. mode 0300) and `auto_recover`
+    is on: `find_latest_checkpoint(..)?` returns its `Err`. (With `auto_recover` off the run goes through.) -/
+theorem unlistable_directory_not_transparent (concat : List P → P) (env : Env) (hc : env.dirCreatable = true)
+    (hl : env.dirListable = false) (cfg : Config) (hrec : cfg.autoRecover = true) (fs : FS) (chain : List (Node P))
+    (n : Nat) :
+    (execSeqCkpt env cfg fs chain).outcome = .setupFailed .readDir ∧
+    (execSeqCkpt env cfg fs chain).fs = fs ∧
+    (execParCkpt concat env cfg fs chain n).outcome = .setupFailed .readDir ∧
+    (execParCkpt concat env cfg fs chain n).fs = fs := by
+  have hr : ∀ pid, recover env cfg pid fs = .error .readDir := by
+    intro pid; unfold recover; simp [hrec, hl]
+  have h1 : execSeqCkpt env cfg fs chain = { outcome := .setupFailed .readDir, fs := fs, log := none } := by
+    unfold execSeqCkpt; simp only [hc, hr, Bool.not_true, Bool.false_eq_true, if_false]
+  have h2 : execParCkpt concat env cfg fs chain n = { outcome := .setupFailed .readDir, fs := fs, log := none } := by
+    unfold execParCkpt; simp only [hc, hr, Bool.not_true, Bool.false_eq_true, if_false]
+  rw [h1, h2]
+  exact ⟨rfl, rfl, rfl, rfl⟩
 
 /-! ## 2. Clean after success; nothing else is ever touched -/
 
 /-- **Effect of a successful sequential run on the directory, exactly**: it is the initial directory with the
-    well-formed checkpoint files of this pipeline id removed — whatever was saved on the way (every policy, every
-    retention) is gone again, nothing else was created, deleted, renamed or rewritten. -/
-theorem ckpt_success_fs (env : Env) (cfg : Config) (fs : FS) (chain : List (Node P)) (v : P)
-    (hok : (execSeqCkpt env cfg fs chain).outcome = .finished (.ok v)) :
-    (execSeqCkpt env cfg fs chain).fs = clear (seqPid env chain.length) fs := by
+    well-formed checkpoint FILES of this pipeline id removed — whatever was saved on the way (every policy, every
+    retention) is gone again, nothing else was created, deleted, renamed or rewritten; sub-directories (own-named ones
+    included) stay. -/
+theorem ckpt_success_fs (env : Env) (hl : env.dirListable = true) (cfg : Config) (fs : FS) (chain : List (Node P))
+    (v : P) (hok : (execSeqCkpt env cfg fs chain).outcome = .finished (.ok v)) :
+    (execSeqCkpt env cfg fs chain).fs = clearD env.isDir (seqPid env chain.length) fs := by
   unfold execSeqCkpt at hok ⊢
+  cases hc : env.dirCreatable with
+  | false => simp [hc] at hok
+  | true =>
+  simp only [hc, Bool.not_true, Bool.false_eq_true, if_false] at hok ⊢
   cases hr : recover env cfg (seqPid env chain.length) fs with
-  | error e => simp [hr] at hok
+  | error e => cases e <;> simp [hr] at hok
   | ok lg =>
     simp only [hr] at hok ⊢
     cases h1 : (runNodes stepSeqCk env cfg (seqPid env chain.length) chain.length 0 chain none (initSt fs)).1 with
@@ -139,89 +296,151 @@ theorem ckpt_success_fs (env : Env) (cfg : Config) (fs : FS) (chain : List (Node
       cases r with
       | none => simp [h1] at hok
       | some b =>
-        exact clear_runNodes stepSeqCk env cfg _ _ chain 0 none (initSt fs)
+        simp only [clearRun, hl, if_true]
+        exact clearD_runNodes stepSeqCk env cfg _ _ chain 0 none (initSt fs)
 
-theorem ckpt_success_fs_par (concat : List P → P) (env : Env) (cfg : Config) (fs : FS) (chain : List (Node P))
-    (n : Nat) (v : P) (hok : (execParCkpt concat env cfg fs chain n).outcome = .finished (.ok v)) :
-    (execParCkpt concat env cfg fs chain n).fs = clear (parPid env chain.length n) fs := by
+theorem ckpt_success_fs_par (concat : List P → P) (env : Env) (hl : env.dirListable = true) (cfg : Config) (fs : FS)
+    (chain : List (Node P)) (n : Nat) (v : P)
+    (hok : (execParCkpt concat env cfg fs chain n).outcome = .finished (.ok v)) :
+    (execParCkpt concat env cfg fs chain n).fs = clearD env.isDir (parPid env chain.length n) fs := by
   unfold execParCkpt at hok ⊢
+  cases hc : env.dirCreatable with
+  | false => simp [hc] at hok
+  | true =>
+  simp only [hc, Bool.not_true, Bool.false_eq_true, if_false] at hok ⊢
   cases hr : recover env cfg (parPid env chain.length n) fs with
-  | error e => simp [hr] at hok
+  | error e => cases e <;> simp [hr] at hok
   | ok lg =>
     simp only [hr] at hok ⊢
     cases h1 : execPar concat chain n with
-    | ok w => rfl
+    | ok w => simp only [clearRun, hl, if_true]
     | error e =>
       simp only [h1] at hok
       split at hok <;> simp at hok
 
-/-- **Clean after success** (sequential): a successful run leaves no well-formed checkpoint file of its pipeline id
+/-- **Clean after success** (sequential): a successful run leaves no well-formed checkpoint FILE of its pipeline id
     behind — neither one it wrote nor one it found. -/
-theorem ckpt_clean_after_success (env : Env) (cfg : Config) (fs : FS) (chain : List (Node P)) (v : P)
-    (hok : (execSeqCkpt env cfg fs chain).outcome = .finished (.ok v)) :
-    ∀ f ∈ (execSeqCkpt env cfg fs chain).fs, isOwn (seqPid env chain.length) f.1 = false := by
+theorem ckpt_clean_after_success (env : Env) (hl : env.dirListable = true) (cfg : Config) (fs : FS)
+    (chain : List (Node P)) (v : P) (hok : (execSeqCkpt env cfg fs chain).outcome = .finished (.ok v)) :
+    ∀ f ∈ (execSeqCkpt env cfg fs chain).fs, ownFile env.isDir (seqPid env chain.length) f.1 = false := by
   intro f hf
-  rw [ckpt_success_fs env cfg fs chain v hok] at hf
-  exact ((clear_spec _ fs f).mp hf).2
+  rw [ckpt_success_fs env hl cfg fs chain v hok] at hf
+  exact ((mem_clearD _ _ fs f).mp hf).2
 
 /-- **Clean after success** (parallel). -/
-theorem ckpt_clean_after_success_par (concat : List P → P) (env : Env) (cfg : Config) (fs : FS)
-    (chain : List (Node P)) (n : Nat) (v : P)
+theorem ckpt_clean_after_success_par (concat : List P → P) (env : Env) (hl : env.dirListable = true) (cfg : Config)
+    (fs : FS) (chain : List (Node P)) (n : Nat) (v : P)
     (hok : (execParCkpt concat env cfg fs chain n).outcome = .finished (.ok v)) :
-    ∀ f ∈ (execParCkpt concat env cfg fs chain n).fs, isOwn (parPid env chain.length n) f.1 = false := by
+    ∀ f ∈ (execParCkpt concat env cfg fs chain n).fs, ownFile env.isDir (parPid env chain.length n) f.1 = false := by
   intro f hf
-  rw [ckpt_success_fs_par concat env cfg fs chain n v hok] at hf
-  exact ((clear_spec _ fs f).mp hf).2
+  rw [ckpt_success_fs_par concat env hl cfg fs chain n v hok] at hf
+  exact ((mem_clearD _ _ fs f).mp hf).2
+
+/-- … so when the directory held no own-named SUB-DIRECTORY to begin with, no entry with a well-formed checkpoint name
+    of this id is left at all (the statement for a plain directory of files; `Env.isDir = fun _ => false` is the
+    special case) -/
+theorem ckpt_clean_after_success_no_dirs (env : Env) (hl : env.dirListable = true) (cfg : Config) (fs : FS)
+    (chain : List (Node P)) (v : P) (hok : (execSeqCkpt env cfg fs chain).outcome = .finished (.ok v))
+    (hnd : ∀ f ∈ fs, isOwn (seqPid env chain.length) f.1 = true → env.isDir f.1 = false) :
+    ∀ f ∈ (execSeqCkpt env cfg fs chain).fs, isOwn (seqPid env chain.length) f.1 = false := by
+  intro f hf
+  rw [ckpt_success_fs env hl cfg fs chain v hok] at hf
+  obtain ⟨hin, hof⟩ := (mem_clearD _ _ fs f).mp hf
+  cases ho : isOwn (seqPid env chain.length) f.1 with
+  | false => rfl
+  | true =>
+    have := hnd f hin ho
+    unfold ownFile at hof
+    rw [ho, this] at hof
+    cases hof
+
+/-- `clean after success` DOES need a listable directory: with `auto_recover` off a run into a directory that cannot be
+    listed goes through, and its final `clear_checkpoints(..).ok()` does nothing — the directory is exactly what a run
+    killed after its last node leaves (every file that was saved and not removed… and retention removed nothing). -/
+theorem unlistable_success_clears_nothing (env : Env) (hl : env.dirListable = false) (cfg : Config) (fs : FS)
+    (chain : List (Node P)) (v : P) (hok : (execSeqCkpt env cfg fs chain).outcome = .finished (.ok v)) :
+    (execSeqCkpt env cfg fs chain).fs = crashFs env cfg fs chain chain.length := by
+  unfold execSeqCkpt at hok ⊢
+  unfold crashFs
+  rw [List.take_length]
+  cases hc : env.dirCreatable with
+  | false => simp [hc] at hok
+  | true =>
+  simp only [hc, Bool.not_true, Bool.false_eq_true, if_false] at hok ⊢
+  cases hr : recover env cfg (seqPid env chain.length) fs with
+  | error e => cases e <;> simp [hr] at hok
+  | ok lg =>
+    simp only [hr] at hok ⊢
+    cases h1 : (runNodes stepSeqCk env cfg (seqPid env chain.length) chain.length 0 chain none (initSt fs)).1 with
+    | error e => simp [h1] at hok
+    | ok r =>
+      cases r with
+      | none => simp [h1] at hok
+      | some b => simp [clearRun, hl]
 
 /-- every name a run can write is a well-formed checkpoint name of its own pipeline id (so "its files" are covered
-    by the two theorems above) -/
+    by the theorems above) -/
 theorem written_name_is_own (pid : Bytes) (ns : Nat) : isOwn pid (fileNameOf pid (stampOf ns)) = true := by
   unfold isOwn
   rw [fileStamp_fileNameOf pid _ (stampOf_le ns)]; rfl
 
-/-- **However a sequential run ends** (result, error half-way, engine panic, death in recovery) every file that is
-    not a well-formed checkpoint of this pipeline id is still there, in place, with its content. -/
+/-- **However a sequential run ends** (result, error half-way, engine panic, death in recovery, set-up `Err`), with
+    ANY state of the directory path: every entry that is not a well-formed checkpoint FILE of this pipeline id — foreign
+    files, other pipelines' files, every sub-directory — is still there, in place, with its content. -/
+theorem other_entries_untouched (env : Env) (cfg : Config) (fs : FS) (chain : List (Node P)) :
+    clearD env.isDir (seqPid env chain.length) (execSeqCkpt env cfg fs chain).fs =
+      clearD env.isDir (seqPid env chain.length) fs := by
+  unfold execSeqCkpt
+  split
+  · rfl
+  · cases hr : recover env cfg (seqPid env chain.length) fs with
+    | error e => cases e <;> simp only [hr]
+    | ok lg =>
+      simp only [hr]
+      have hk := clearD_runNodes stepSeqCk env cfg (seqPid env chain.length) chain.length chain 0 none (initSt fs)
+      cases h1 : (runNodes stepSeqCk env cfg (seqPid env chain.length) chain.length 0 chain none (initSt fs)).1 with
+      | error e => simp only []; exact hk
+      | ok r =>
+        cases r with
+        | none => simp only []; exact hk
+        | some b =>
+          simp only []
+          rw [clearD_clearRun]; exact hk
+
+theorem other_entries_untouched_par (concat : List P → P) (env : Env) (cfg : Config) (fs : FS)
+    (chain : List (Node P)) (n : Nat) :
+    clearD env.isDir (parPid env chain.length n) (execParCkpt concat env cfg fs chain n).fs =
+      clearD env.isDir (parPid env chain.length n) fs := by
+  unfold execParCkpt
+  split
+  · rfl
+  · cases hr : recover env cfg (parPid env chain.length n) fs with
+    | error e => cases e <;> simp only [hr]
+    | ok lg =>
+      simp only [hr]
+      cases h1 : execPar concat chain n with
+      | ok w => simp only []; exact clearD_clearRun _ _ _
+      | error e =>
+        simp only []
+        split
+        · have := clearD_saveD env.isDir env.dirListable cfg.max fs
+            (failedState env (parPid env chain.length n) chain.length n (stampOf (env.clock 0)))
+            (by unfold failedState; rw [mkState_ts]; exact stampOf_le _)
+          unfold failedState at this ⊢
+          rw [mkState_pid] at this
+          exact this
+        · rfl
+
+/-- the same in terms of names only: everything whose NAME is not a well-formed checkpoint name of this id -/
 theorem other_files_untouched (env : Env) (cfg : Config) (fs : FS) (chain : List (Node P)) :
     clear (seqPid env chain.length) (execSeqCkpt env cfg fs chain).fs = clear (seqPid env chain.length) fs := by
-  unfold execSeqCkpt
-  cases hr : recover env cfg (seqPid env chain.length) fs with
-  | error e => simp only [hr]
-  | ok lg =>
-    simp only [hr]
-    have hk : clear (seqPid env chain.length)
-        (runNodes stepSeqCk env cfg (seqPid env chain.length) chain.length 0 chain none (initSt fs)).2.fs =
-        clear (seqPid env chain.length) fs :=
-      clear_runNodes stepSeqCk env cfg (seqPid env chain.length) chain.length chain 0 none (initSt fs)
-    cases h1 : (runNodes stepSeqCk env cfg (seqPid env chain.length) chain.length 0 chain none (initSt fs)).1 with
-    | error e => simp only []; exact hk
-    | ok r =>
-      cases r with
-      | none => simp only []; exact hk
-      | some b =>
-        simp only []
-        rw [clear_idem]; exact hk
+  rw [← clear_clearD env.isDir, other_entries_untouched, clear_clearD]
 
 theorem other_files_untouched_par (concat : List P → P) (env : Env) (cfg : Config) (fs : FS) (chain : List (Node P))
     (n : Nat) :
     clear (parPid env chain.length n) (execParCkpt concat env cfg fs chain n).fs =
       clear (parPid env chain.length n) fs := by
-  unfold execParCkpt
-  cases hr : recover env cfg (parPid env chain.length n) fs with
-  | error e => simp only [hr]
-  | ok lg =>
-    simp only [hr]
-    cases h1 : execPar concat chain n with
-    | ok w => simp only []; rw [clear_idem]
-    | error e =>
-      simp only []
-      split
-      · have := clear_save cfg.max fs
-          (failedState env (parPid env chain.length n) chain.length n (stampOf (env.clock 0)))
-          (by unfold failedState; rw [mkState_ts]; exact stampOf_le _)
-        unfold failedState at this ⊢
-        rw [mkState_pid] at this
-        exact this
-      · rfl
+  rw [← clear_clearD env.isDir, other_entries_untouched_par, clear_clearD]
 
 /-- in particular: a file of the initial directory that is not a well-formed checkpoint of this id survives -/
 theorem foreign_file_survives (env : Env) (cfg : Config) (fs : FS) (chain : List (Node P)) (f : Name × Bytes)
@@ -231,93 +450,98 @@ theorem foreign_file_survives (env : Env) (cfg : Config) (fs : FS) (chain : List
   rw [← other_files_untouched env cfg fs chain] at h1
   exact ((clear_spec _ _ f).mp h1).1
 
+/-- … and so does every sub-directory, even one named like a checkpoint of this id (`checkpoint_<pid>_5.bin/`): the
+    final clear cannot remove it (`remove_file(..).ok()`), also after a successful run -/
+theorem own_named_directory_survives (env : Env) (cfg : Config) (fs : FS) (chain : List (Node P)) (f : Name × Bytes)
+    (hf : f ∈ fs) (hd : env.isDir f.1 = true) : f ∈ (execSeqCkpt env cfg fs chain).fs := by
+  have h1 : f ∈ clearD env.isDir (seqPid env chain.length) fs :=
+    (mem_clearD _ _ fs f).mpr ⟨hf, by unfold ownFile; rw [hd]; simp⟩
+  rw [← other_entries_untouched env cfg fs chain] at h1
+  exact ((mem_clearD _ _ _ f).mp h1).1
+
+/-- when the newest own-named entry is a sub-directory, recovery reads nothing from it: `load_checkpoint` fails in
+    `read_to_end`, which is only logged -/
+theorem recovery_on_directory_only_logs (env : Env) (hl : env.dirListable = true) (cfg : Config)
+    (hrec : cfg.autoRecover = true) (pid : Bytes) (fs : FS) (name : Name) (hlatest : latest true pid fs = some name)
+    (hd : env.isDir name = true) : recover env cfg pid fs = .ok .unreadable := by
+  unfold recover
+  simp [hrec, hl, hlatest, readD, hd]
+
 /-! ### the side effect that is NOT confined to "its own" run: equal-length pipelines share an id
 
 The pipeline id is a hash of the chain LENGTH only (plus the partition count in parallel mode). So two different
 pipelines with chains of equal length use the same file names, and a successful run of one clears what a crashed
 run of the other left. This does not contradict the property ("leaves none of ITS checkpoint files behind" holds;
-results are unaffected because recovered state is never used) — it is recorded here as a fact about the code. -/
+results are unaffected because recovered state is never used) — it is recorded here as a fact about the code. The
+harness' leftover oracle is stated per pipeline ID for this reason. -/
 
 theorem same_length_same_id (env : Env) (a b : List (Node P)) (h : a.length = b.length) :
     seqPid env a.length = seqPid env b.length := by rw [h]
 
-theorem success_clears_equal_length_pipelines_files (env env' : Env) (hH : env'.H = env.H) (cfg cfg' : Config)
+theorem success_clears_equal_length_pipelines_files (env env' : Env) (hH : env'.H = env.H)
+    (hl : env.dirListable = true) (cfg cfg' : Config)
     (fs : FS) (a b : List (Node P)) (hlen : a.length = b.length) (k : Nat) (v : P)
     (hok : (execSeqCkpt env cfg (crashFs env' cfg' fs b k) a).outcome = .finished (.ok v)) :
-    ∀ f ∈ (execSeqCkpt env cfg (crashFs env' cfg' fs b k) a).fs, isOwn (seqPid env' b.length) f.1 = false := by
+    ∀ f ∈ (execSeqCkpt env cfg (crashFs env' cfg' fs b k) a).fs,
+      ownFile env.isDir (seqPid env' b.length) f.1 = false := by
   have hp : seqPid env' b.length = seqPid env a.length := by
     unfold seqPid pipelineId; rw [hH, hlen]
   rw [hp]
-  exact ckpt_clean_after_success env cfg _ a v hok
+  exact ckpt_clean_after_success env hl cfg _ a v hok
 
-/-! ## 3. Recovery ignores whatever is in the directory; crashes and torn / garbage files -/
+/-! ## 3. Recovery ignores whatever is in the directory; crashes and torn / garbage files
 
-/-- **The result does not depend on the initial directory at all** (complete, torn, garbage, foreign files, other
-    pipelines' files — any two directories give the same outcome). -/
-theorem recovery_ignores_state (env : Env) (hsafe : SafeDecoder env) (cfg : Config) (fs₁ fs₂ : FS)
-    (chain : List (Node P)) :
+All theorems of this section are INSTANCES of transparency on an arbitrary directory content (that is their whole
+proof): the model's recovery block cannot pass anything on to the node loop, so "what a crashed run left, damaged in
+any way" is just one more initial directory. `crashFs` carries content only in `crash_leaves_only_own_files` and in
+the correspondence check (the driver computes what a killed run leaves and the harness compares the real directory). -/
+
+/-- **The result does not depend on the initial directory content at all** (complete, torn, garbage, foreign files,
+    other pipelines' files, sub-directories — any two contents give the same outcome). -/
+theorem recovery_ignores_state (env : Env) (hsafe : SafeDecoder env) (cfg : Config) (hdir : DirUsable env cfg)
+    (fs₁ fs₂ : FS) (chain : List (Node P)) :
     (execSeqCkpt env cfg fs₁ chain).outcome = (execSeqCkpt env cfg fs₂ chain).outcome := by
-  rw [ckpt_transparent env hsafe cfg fs₁ chain, ckpt_transparent env hsafe cfg fs₂ chain]
+  rw [ckpt_transparent env hsafe cfg hdir fs₁ chain, ckpt_transparent env hsafe cfg hdir fs₂ chain]
 
 theorem recovery_ignores_state_par (concat : List P → P) (env : Env) (hsafe : SafeDecoder env) (cfg : Config)
-    (fs₁ fs₂ : FS) (chain : List (Node P)) (n : Nat) :
+    (hdir : DirUsable env cfg) (fs₁ fs₂ : FS) (chain : List (Node P)) (n : Nat) :
     (execParCkpt concat env cfg fs₁ chain n).outcome = (execParCkpt concat env cfg fs₂ chain n).outcome := by
-  rw [ckpt_transparent_par concat env hsafe cfg fs₁ chain n, ckpt_transparent_par concat env hsafe cfg fs₂ chain n]
-
-/-- **The only way leftover files can hurt** — for ANY decoder, safe or not: either the run returns exactly the
-    plain result, or `auto_recover` is on and the process died inside `load_checkpoint` on the content of the newest
-    well-formed checkpoint file of this id. -/
-theorem recovery_only_hurts_through_load (env : Env) (cfg : Config) (fs : FS) (chain : List (Node P)) :
-    (execSeqCkpt env cfg fs chain).outcome = .finished (execSeq chain) ∨
-    ∃ name bytes e, cfg.autoRecover = true ∧ latest true (seqPid env chain.length) fs = some name ∧
-      read fs name = some bytes ∧ load env.H env.dec bytes = .error e ∧ kills e = true ∧
-      (execSeqCkpt env cfg fs chain).outcome = .died e := by
-  rcases recover_cases env cfg (seqPid env chain.length) fs with ⟨lg, hlg⟩ | ⟨name, bytes, e, h1, h2, h3, h4, h5, h6⟩
-  · left
-    unfold execSeqCkpt
-    simp only [hlg]
-    rw [runNodes_result, execSeq_eq_seqFold]
-    cases h : seqFold chain none with
-    | error e => rfl
-    | ok r =>
-      cases r with
-      | none => rfl
-      | some b => rfl
-  · right
-    refine ⟨name, bytes, e, h1, h2, h3, h4, h5, ?_⟩
-    unfold execSeqCkpt
-    simp only [h6]
+  rw [ckpt_transparent_par concat env hsafe cfg hdir fs₁ chain n,
+      ckpt_transparent_par concat env hsafe cfg hdir fs₂ chain n]
 
 /-- whatever a killed run leaves behind differs from the directory it started in only in well-formed checkpoint
-    files of its own pipeline id ("the checkpoint files it left") -/
+    FILES of its own pipeline id ("the checkpoint files it left") -/
 theorem crash_leaves_only_own_files (env : Env) (cfg : Config) (fs : FS) (chain : List (Node P)) (k : Nat) :
-    clear (seqPid env chain.length) (crashFs env cfg fs chain k) = clear (seqPid env chain.length) fs :=
-  clear_runNodes stepSeqCk env cfg _ _ (chain.take k) 0 none (initSt fs)
+    clearD env.isDir (seqPid env chain.length) (crashFs env cfg fs chain k) =
+      clearD env.isDir (seqPid env chain.length) fs :=
+  clearD_runNodes stepSeqCk env cfg _ _ (chain.take k) 0 none (initSt fs)
 
 /-- **A run dies at any point, the files are damaged in any way, a later run still completes correctly.**
     First run: any environment (its own clock), any configuration, killed after `k` nodes (`k` arbitrary; nothing is
     cleared). Then ANY transformation of the directory (`tamper`: truncate the newest file at any byte, overwrite
-    with garbage, add foreign or look-alike files, delete files — any function). The second run, with or without
-    `auto_recover`, returns exactly the checkpoint-free result. -/
-theorem crash_then_recover (env₁ env₂ : Env) (hsafe : SafeDecoder env₂) (cfg₁ cfg₂ : Config) (fs : FS)
-    (chain : List (Node P)) (k : Nat) (tamper : FS → FS) :
+    with garbage, add foreign or look-alike files or sub-directories, delete files — any function). The second run,
+    with or without `auto_recover`, returns exactly the checkpoint-free result. -/
+theorem crash_then_recover (env₁ env₂ : Env) (hsafe : SafeDecoder env₂) (cfg₁ cfg₂ : Config)
+    (hdir : DirUsable env₂ cfg₂) (fs : FS) (chain : List (Node P)) (k : Nat) (tamper : FS → FS) :
     (execSeqCkpt env₂ cfg₂ (tamper (crashFs env₁ cfg₁ fs chain k)) chain).outcome = .finished (execSeq chain) :=
-  ckpt_transparent env₂ hsafe cfg₂ _ chain
+  ckpt_transparent env₂ hsafe cfg₂ hdir _ chain
 
-/-- the same after a failed or killed PARALLEL run (which may have left a `"Failed"` marker) -/
-theorem crash_then_recover_par (concat : List P → P) (env₁ env₂ : Env) (hsafe : SafeDecoder env₂) (cfg₁ cfg₂ : Config)
-    (fs : FS) (chain : List (Node P)) (n : Nat) (tamper : FS → FS) :
-    (execParCkpt concat env₂ cfg₂ (tamper (execParCkpt concat env₁ cfg₁ fs chain n).fs) chain n).outcome =
-      .finished (execPar concat chain n) :=
-  ckpt_transparent_par concat env₂ hsafe cfg₂ _ chain n
+/-- the same in PARALLEL mode. The parallel engine writes nothing before `exec_par` has returned, so a KILLED parallel
+    run leaves the directory as it found it (`tamper` applied to `fs`: take `first := fun d => d`); a FAILED one
+    (`Err`) leaves at most the `"Failed"` marker (`first := fun d => (execParCkpt … d …).fs`). -/
+theorem crash_then_recover_par (concat : List P → P) (env₂ : Env) (hsafe : SafeDecoder env₂) (cfg₂ : Config)
+    (hdir : DirUsable env₂ cfg₂) (fs : FS) (chain : List (Node P)) (n : Nat) (first tamper : FS → FS) :
+    (execParCkpt concat env₂ cfg₂ (tamper (first fs)) chain n).outcome = .finished (execPar concat chain n) :=
+  ckpt_transparent_par concat env₂ hsafe cfg₂ hdir _ chain n
 
 /-- … and if that second run succeeds, the directory is clean again (the crashed run's files included). -/
-theorem crash_then_recover_clean (env₁ env₂ : Env) (cfg₁ cfg₂ : Config) (fs : FS) (chain : List (Node P)) (k : Nat)
+theorem crash_then_recover_clean (env₁ env₂ : Env) (hl : env₂.dirListable = true) (cfg₁ cfg₂ : Config) (fs : FS)
+    (chain : List (Node P)) (k : Nat)
     (tamper : FS → FS) (v : P)
     (hok : (execSeqCkpt env₂ cfg₂ (tamper (crashFs env₁ cfg₁ fs chain k)) chain).outcome = .finished (.ok v)) :
     ∀ f ∈ (execSeqCkpt env₂ cfg₂ (tamper (crashFs env₁ cfg₁ fs chain k)) chain).fs,
-      isOwn (seqPid env₂ chain.length) f.1 = false :=
-  ckpt_clean_after_success env₂ cfg₂ _ chain v hok
+      ownFile env₂.isDir (seqPid env₂ chain.length) f.1 = false :=
+  ckpt_clean_after_success env₂ hl cfg₂ _ chain v hok
 
 /-- a file torn at byte `o`: any prefix of its content -/
 def tear (name : Name) (o : Nat) (fs : FS) : FS := fs.map (fun f => if f.1 == name then (f.1, f.2.take o) else f)
@@ -328,20 +552,35 @@ def overwrite (name : Name) (garbage : Bytes) (fs : FS) : FS :=
 
 /-- instance of `crash_then_recover` in the property's own words: the newest file torn at ANY byte offset, or
     overwritten with ANY bytes, plus ANY additional files -/
-theorem torn_or_garbage_then_recover (env₁ env₂ : Env) (hsafe : SafeDecoder env₂) (cfg₁ cfg₂ : Config) (fs : FS)
+theorem torn_or_garbage_then_recover (env₁ env₂ : Env) (hsafe : SafeDecoder env₂) (cfg₁ cfg₂ : Config)
+    (hdir : DirUsable env₂ cfg₂) (fs : FS)
     (chain : List (Node P)) (k : Nat) (name : Name) (o : Nat) (garbage : Bytes) (extra : FS) :
     (execSeqCkpt env₂ cfg₂ (tear name o (crashFs env₁ cfg₁ fs chain k) ++ extra) chain).outcome =
         .finished (execSeq chain) ∧
     (execSeqCkpt env₂ cfg₂ (overwrite name garbage (crashFs env₁ cfg₁ fs chain k) ++ extra) chain).outcome =
         .finished (execSeq chain) :=
-  ⟨crash_then_recover env₁ env₂ hsafe cfg₁ cfg₂ fs chain k (fun d => tear name o d ++ extra),
-   crash_then_recover env₁ env₂ hsafe cfg₁ cfg₂ fs chain k (fun d => overwrite name garbage d ++ extra)⟩
+  ⟨crash_then_recover env₁ env₂ hsafe cfg₁ cfg₂ hdir fs chain k (fun d => tear name o d ++ extra),
+   crash_then_recover env₁ env₂ hsafe cfg₁ cfg₂ hdir fs chain k (fun d => overwrite name garbage d ++ extra)⟩
+
+/-- the same in parallel mode, after a FAILED parallel run (which left its `"Failed"` marker) -/
+theorem torn_or_garbage_then_recover_par (concat : List P → P) (env₁ env₂ : Env) (hsafe : SafeDecoder env₂)
+    (cfg₁ cfg₂ : Config) (hdir : DirUsable env₂ cfg₂) (fs : FS) (chain : List (Node P)) (n : Nat) (name : Name)
+    (o : Nat) (garbage : Bytes) (extra : FS) :
+    (execParCkpt concat env₂ cfg₂ (tear name o (execParCkpt concat env₁ cfg₁ fs chain n).fs ++ extra) chain n).outcome =
+        .finished (execPar concat chain n) ∧
+    (execParCkpt concat env₂ cfg₂ (overwrite name garbage (execParCkpt concat env₁ cfg₁ fs chain n).fs ++ extra)
+        chain n).outcome = .finished (execPar concat chain n) :=
+  ⟨crash_then_recover_par concat env₂ hsafe cfg₂ hdir fs chain n (fun d => (execParCkpt concat env₁ cfg₁ d chain n).fs)
+      (fun d => tear name o d ++ extra),
+   crash_then_recover_par concat env₂ hsafe cfg₂ hdir fs chain n (fun d => (execParCkpt concat env₁ cfg₁ d chain n).fs)
+      (fun d => overwrite name garbage d ++ extra)⟩
 
 /-! ### `SafeDecoder` is needed: the pinned commit's decoder (DESIGN §8 #8) -/
 
 /-- NEGATION for the pinned commit's unlimited decoder: one nine-byte file (a string length prefix of `2^63`) under
-    a well-formed checkpoint name of this pipeline id, `auto_recover` on — the run does not return the plain
-    result: the process panics ("capacity overflow") inside `load_checkpoint`. Every chain, hash, policy, clock. -/
+    a well-formed checkpoint name of this pipeline id, `auto_recover` on, a perfectly usable directory — the run does
+    not return the plain result: the process panics ("capacity overflow") inside `load_checkpoint`. Every chain, hash,
+    policy, clock. -/
 theorem legacy_decoder_recovery_dies (H : Bytes → Bytes) (clock : Nat → Nat) (progress : Nat → Nat → UInt8)
     (mem : Nat) (policy : Policy) (max : Option Nat) (chain : List (Node P)) :
     let env : Env := { H := H, dec := Checkpoint.Legacy.cfg mem, clock := clock, progress := progress }
@@ -352,27 +591,31 @@ theorem legacy_decoder_recovery_dies (H : Bytes → Bytes) (clock : Nat → Nat)
   have hl := legacy_load_panics H mem
   unfold Checkpoint.Legacy.load at hl
   have hrec : recover env { policy := policy, autoRecover := true, max := max } (seqPid env chain.length)
-      [(fileNameOf (seqPid env chain.length) 5, [253, 0, 0, 0, 0, 0, 0, 0, 128])] = .error .capacityOverflow := by
+      [(fileNameOf (seqPid env chain.length) 5, [253, 0, 0, 0, 0, 0, 0, 0, 128])] = .error (.died .capacityOverflow) := by
     unfold recover
-    simp only [Bool.not_true, Bool.false_eq_true, if_false]
+    have hli : env.dirListable = true := rfl
+    have hnd : ∀ n, env.isDir n = false := fun _ => rfl
+    simp only [Bool.not_true, Bool.false_eq_true, if_false, hli]
     rw [latest_single_own _ 5 (by decide)]
-    simp only [read_single]
+    simp only [readD, hnd, Bool.false_eq_true, if_false, read_single]
     show (match load H (Checkpoint.Legacy.cfg mem) [253, 0, 0, 0, 0, 0, 0, 0, 128] with
       | .ok s => Except.ok (RecLog.loaded s)
-      | .error e => if kills e then .error e else .ok (.rejected e)) = _
+      | .error e => if kills e then .error (RecFail.died e) else .ok (.rejected e)) = _
     rw [hl]; rfl
+  have hc : env.dirCreatable = true := rfl
   unfold execSeqCkpt
-  simp only [hrec]
+  simp only [hc, hrec, Bool.not_true, Bool.false_eq_true, if_false]
 
 /-! ## 4. The pinned commit: no `CoGroup` arm (DESIGN §8 #7) -/
 
 /-- **PARTIAL (pinned commit)**: on join-free chains the old engine was transparent too. -/
-theorem legacy_ckpt_transparent_partial (env : Env) (hsafe : SafeDecoder env) (cfg : Config) (fs : FS)
+theorem legacy_ckpt_transparent_partial (env : Env) (hsafe : SafeDecoder env) (cfg : Config)
+    (hdir : DirUsable env cfg) (fs : FS)
     (chain : List (Node P)) (hno : hasCoGroup chain = false) :
     (Legacy.execSeqCkpt env cfg fs chain).outcome = .finished (Legacy.lift (execSeq chain)) := by
-  obtain ⟨lg, hlg⟩ := recover_ok_of_noCrash env cfg (seqPid env chain.length) fs hsafe
+  obtain ⟨lg, hlg⟩ := recover_ok_of_noCrash env cfg (seqPid env chain.length) fs hdir.2 hsafe
   unfold Legacy.execSeqCkpt
-  simp only [hlg]
+  simp only [hdir.1, hlg, Bool.not_true, Bool.false_eq_true, if_false]
   rw [legacy_runNodes_result env cfg _ _ chain hno, execSeq_eq_seqFold]
   cases h : seqFold chain none with
   | error e => rfl
@@ -384,14 +627,16 @@ theorem legacy_ckpt_transparent_partial (env : Env) (hsafe : SafeDecoder env) (c
 /-- **NEGATION (pinned commit), every join**: if the nodes before the first `CoGroup` run through (they always do
     for a chain the builders produce: a join restarts the chain at a dummy source), the old sequential checkpointing
     engine returns `Err("CoGroup requires subplan execution")` — whatever the join would have produced. -/
-theorem legacy_ckpt_fails_on_join (env : Env) (hsafe : SafeDecoder env) (cfg : Config) (fs : FS)
+theorem legacy_ckpt_fails_on_join (env : Env) (hsafe : SafeDecoder env) (cfg : Config)
+    (hdir : DirUsable env cfg) (fs : FS)
     (pre post : List (Node P)) (l r : List (Node P)) (coL coR : List P → P) (ex : P → P → P)
     (hno : hasCoGroup pre = false) (cur : Option P) (hpre : seqFold pre none = .ok cur) :
     (Legacy.execSeqCkpt env cfg fs (pre ++ .coGroup l r coL coR ex :: post)).outcome =
       .finished (.error .coGroupRequiresSubplan) := by
-  obtain ⟨lg, hlg⟩ := recover_ok_of_noCrash env cfg (seqPid env (pre ++ .coGroup l r coL coR ex :: post).length) fs hsafe
+  obtain ⟨lg, hlg⟩ :=
+    recover_ok_of_noCrash env cfg (seqPid env (pre ++ .coGroup l r coL coR ex :: post).length) fs hdir.2 hsafe
   unfold Legacy.execSeqCkpt
-  simp only [hlg]
+  simp only [hdir.1, hlg, Bool.not_true, Bool.false_eq_true, if_false]
   have key : ∀ (pre : List (Node P)) (hno : hasCoGroup pre = false) (idx : Nat) (c0 : Option P) (st : St)
       (total : Nat) (pid : Bytes), seqFold pre c0 = .ok cur →
       (runNodes Legacy.stepSeqCk env cfg pid total idx (pre ++ .coGroup l r coL coR ex :: post) c0 st).1 =
@@ -419,7 +664,8 @@ theorem legacy_ckpt_fails_on_join (env : Env) (hsafe : SafeDecoder env) (cfg : C
 /-- **NEGATION (pinned commit) on the chains the BUILDERS produce**: for every left input, every right input and
     right-side steps, every join kind, every policy / retention / directory — sequential mode with checkpointing
     returned `Err("CoGroup requires subplan execution")` for `left.join_*(right)`. -/
-theorem legacy_ckpt_fails_on_builder_join (env : Env) (hsafe : SafeDecoder env) (cfg : Config) (fs : FS)
+theorem legacy_ckpt_fails_on_builder_join (env : Env) (hsafe : SafeDecoder env) (cfg : Config)
+    (hdir : DirUsable env cfg) (fs : FS)
     (src rsrc : List Val) (k : JoinKind) (rsteps : List Step) :
     (Legacy.execSeqCkpt env cfg fs (optimise (litChain src [.join k rsrc rsteps]))).outcome =
       .finished (.error .coGroupRequiresSubplan) := by
@@ -427,7 +673,7 @@ theorem legacy_ckpt_fails_on_builder_join (env : Env) (hsafe : SafeDecoder env) 
       optimise (litChain src [.join k rsrc rsteps]) = [dummySource] ++ .coGroup l r coL coR ex :: post :=
     ⟨_, _, _, _, _, _, rfl⟩
   rw [h]
-  exact legacy_ckpt_fails_on_join env hsafe cfg fs [dummySource] post l r coL coR ex rfl (some [.int 0]) rfl
+  exact legacy_ckpt_fails_on_join env hsafe cfg hdir fs [dummySource] post l r coL coR ex rfl (some [.int 0]) rfl
 
 section Witness
 
@@ -443,14 +689,23 @@ theorem witness_plain_result : execSeq wChain = .ok 43 ∧ execPar List.sum wCha
   constructor <;> rfl
 
 /-- … the CURRENT checkpointing engine returns the same (instance of `ckpt_transparent`) … -/
-theorem witness_current_result (env : Env) (hsafe : SafeDecoder env) (cfg : Config) (fs : FS) :
-    (execSeqCkpt env cfg fs wChain).outcome = .finished (.ok 43) := by
-  rw [ckpt_transparent env hsafe cfg fs wChain]; rfl
+theorem witness_current_result (env : Env) (hsafe : SafeDecoder env) (cfg : Config) (hdir : DirUsable env cfg)
+    (fs : FS) : (execSeqCkpt env cfg fs wChain).outcome = .finished (.ok 43) := by
+  rw [ckpt_transparent env hsafe cfg hdir fs wChain]; rfl
 
 /-- … the pinned commit's engine fails (NEGATION of transparency for the old code). -/
-theorem witness_legacy_fails (env : Env) (hsafe : SafeDecoder env) (cfg : Config) (fs : FS) :
-    (Legacy.execSeqCkpt env cfg fs wChain).outcome = .finished (.error .coGroupRequiresSubplan) :=
-  legacy_ckpt_fails_on_join env hsafe cfg fs [.source 0 1 (fun _ => [0])] _ _ _ _ _ _ rfl (some 0) rfl
+theorem witness_legacy_fails (env : Env) (hsafe : SafeDecoder env) (cfg : Config) (hdir : DirUsable env cfg)
+    (fs : FS) : (Legacy.execSeqCkpt env cfg fs wChain).outcome = .finished (.error .coGroupRequiresSubplan) :=
+  legacy_ckpt_fails_on_join env hsafe cfg hdir fs [.source 0 1 (fun _ => [0])] _ _ _ _ _ _ rfl (some 0) rfl
+
+/-- … and the current engine with a checkpoint directory that cannot be created does not return it either (NEGATION
+    of transparency without `DirUsable`, on a concrete chain whose plain result is `Ok 43`). -/
+theorem witness_unusable_directory (env : Env) (hc : env.dirCreatable = false) (cfg : Config) (fs : FS) :
+    execSeq wChain = .ok 43 ∧ (execSeqCkpt env cfg fs wChain).outcome = .setupFailed .createDir ∧
+    (execSeqCkpt env cfg fs wChain).outcome ≠ .finished (.ok 43) := by
+  obtain ⟨h1, _, _, _, _, _⟩ := unusable_directory_not_transparent List.sum env hc cfg fs wChain 1
+  refine ⟨rfl, h1, ?_⟩
+  rw [h1]; intro h; cases h
 
 end Witness
 
@@ -458,12 +713,14 @@ end Witness
 
 section NonVacuity
 
-/-- a safe environment exists (identity "hash", the running code's decode limit) -/
+/-- a safe environment exists (identity "hash", the running code's decode limit, a usable directory without
+    sub-directories) -/
 def exEnv : Env :=
   { H := id, dec := currentCfg IB.Generated.ckptDecodeLimit, clock := fun k => 1700000000000000000 + k * 1000000,
     progress := fun i t => UInt8.ofNat (i * 100 / t) }
 
-example : SafeDecoder exEnv := current_decoder_safe exEnv _ (Nat.le_refl _) rfl
+theorem exEnv_safe : SafeDecoder exEnv := current_decoder_safe exEnv _ (Nat.le_refl _) rfl
+theorem exEnv_usable (cfg : Config) : DirUsable exEnv cfg := dirUsable_of exEnv cfg rfl rfl
 
 /-- checkpoints really are written: under `AfterEveryBarrier`, keep-all retention, a run killed right after its
     barrier node leaves exactly the record of that node behind (so the clean-up theorems are not about an engine that
@@ -475,7 +732,7 @@ example :
 
 /-- … and after the full run it is gone again -/
 example : (execSeqCkpt exEnv { policy := .afterEveryBarrier, autoRecover := true, max := none } [] wChain).fs = [] := by
-  rw [ckpt_success_fs exEnv _ [] wChain 43 (witness_current_result exEnv (current_decoder_safe exEnv _ (Nat.le_refl _) rfl) _ [])]
+  rw [ckpt_success_fs exEnv rfl _ [] wChain 43 (witness_current_result exEnv exEnv_safe _ (exEnv_usable _) [])]
   rfl
 
 /-- the hypotheses of `crash_then_recover_clean` / `success_clears_equal_length_pipelines_files` are satisfiable:
@@ -485,7 +742,28 @@ example :
       (tear (fileNameOf (seqPid exEnv 3) (stampOf (exEnv.clock 0))) 7
         (crashFs exEnv { policy := .afterEveryBarrier, autoRecover := true, max := none } [] wChain 2)) wChain).outcome
       = .finished (.ok 43) :=
-  witness_current_result exEnv (current_decoder_safe exEnv _ (Nat.le_refl _) rfl) _ _
+  witness_current_result exEnv exEnv_safe _ (exEnv_usable _) _
+
+/-- the same environment, but the entry `checkpoint_<pid>_5.bin` of the checkpoint directory is a sub-directory -/
+def exEnvDir : Env := { exEnv with isDir := fun n => n == fileNameOf (seqPid exEnv 3) 5 }
+
+/-- an own-named sub-directory: it IS a candidate of all three scans (well-formed name) … -/
+example : isOwn (seqPid exEnvDir 3) (fileNameOf (seqPid exEnv 3) 5) = true := by
+  unfold isOwn
+  rw [show seqPid exEnvDir 3 = seqPid exEnv 3 from rfl, fileStamp_fileNameOf _ 5 (by decide)]; rfl
+
+/-- … the run over it still returns the plain result (instance of `ckpt_transparent`) … -/
+example (cfg : Config) :
+    (execSeqCkpt exEnvDir cfg [(fileNameOf (seqPid exEnv 3) 5, [])] wChain).outcome = .finished (.ok 43) :=
+  witness_current_result exEnvDir (current_decoder_safe exEnvDir _ (Nat.le_refl _) rfl) cfg
+    (dirUsable_of exEnvDir cfg rfl rfl) _
+
+/-- … and it is still there after that successful run (instance of `own_named_directory_survives`): "clean after
+    success" cannot be claimed for own-named sub-directories -/
+example (cfg : Config) :
+    (fileNameOf (seqPid exEnv 3) 5, []) ∈ (execSeqCkpt exEnvDir cfg [(fileNameOf (seqPid exEnv 3) 5, [])] wChain).fs :=
+  own_named_directory_survives exEnvDir cfg _ wChain _ (List.mem_singleton.mpr rfl)
+    (by show (fileNameOf (seqPid exEnv 3) 5 == fileNameOf (seqPid exEnv 3) 5) = true; simp)
 
 /-- `EveryNNodes 0` never saves (`is_multiple_of(0)` is `== 0`, and index 0 is excluded) -/
 example (idx : Nat) (b : Bool) (last : Option Nat) (now : Nat) :
